@@ -118,11 +118,17 @@ var framePools = func() [FrameContinuation + 1]*sync.Pool {
 
 func AcquireFrame(ftype FrameType) Frame {
 	fr := framePools[ftype].Get().(Frame)
+	if verifOn {
+		vPoolGet(vpFrame, fr)
+	}
 	fr.Reset()
 
 	return fr
 }
 
 func ReleaseFrame(fr Frame) {
+	if verifOn {
+		vPoolPut(vpFrame, fr)
+	}
 	framePools[fr.Type()].Put(fr)
 }
